@@ -1003,6 +1003,67 @@ theorem C11_aggregate_exact {s : State} {l : Nat} (hl : l < s.nLayers) :
       have := extremum_eq_none.mp hnone
       simpa using this
 
+/-! ## the grid attribute `grid.<name>` -/
+
+/-- `grid.<name>` of a new-style grid (`HasPropertyLayers.__getattr__`) is the attached layer: for a name the user never
+    assigned on the grid object itself, `grid.<name>.data` is the layer's current array — the very values the cells
+    read through their attribute; a name the user did assign reads that object instead. -/
+theorem C11_grid_attribute_is_layer {s : State} (h : Reach s) (hi : s.impl = .new) {n : String} {l : Nat}
+    (hn : s.named? n = some l) :
+    (n ∉ s.gattrs → dumpName s n = dump s l ∧ dumpName s n = .arr ((cells s.dims).map (s.value l)) ∧
+      ∀ c, inBounds s.dims c = true → cellGet s n c = .val (s.value l c)) ∧
+    (n ∈ s.gattrs → dumpName s n = .err .shadowed) := by
+  have hw := h.wf
+  have hl := hw.att_lt n l hn
+  have hd := hw.att_dims n l hn
+  constructor
+  · intro hg
+    have h1 : dumpName s n = .arr ((cells s.dims).map (s.value l)) := by
+      unfold dumpName
+      rw [if_neg (fun hh => hg hh.2), hn]
+      simp only [hd]
+      rfl
+    refine ⟨?_, h1, fun c hc => ?_⟩
+    · rw [h1]
+      unfold dump State.layer?
+      rw [if_pos hl]
+      simp only [hd]
+      rfl
+    · obtain ⟨a, b⟩ := C11_two_views_one_value h hn hc
+      rw [a, b]
+  · intro hg
+    unfold dumpName
+    rw [if_pos ⟨hi, hg⟩]
+
+/-- `grid.<name> = x` (`HasPropertyLayers.__setattr__`) is refused with `AttributeError` while a layer is attached
+    under that name, and nothing changes. -/
+theorem C11_grid_attribute_assignment_refused {s : State} (hi : s.impl = .new) {n : String}
+    (hn : (s.named? n).isSome = true) : gridSet s n = (s, .err .attr) := by
+  unfold gridSet
+  rw [if_neg (by simp [hi]), if_pos hn]
+
+/-- Over every history: a layer's name that is not an attribute of the grid object cannot become one while the layer
+    stays attached — whatever is done in between, `grid.<name>` keeps meaning the layer. -/
+theorem C11_grid_attribute_never_replaces_layer (s : State) {n : String} (hg : n ∉ s.gattrs) (ops : List Op)
+    (hatt : ∀ k, k < ops.length → ((run s (ops.take k)).1.named? n).isSome = true) :
+    n ∉ (run s ops).1.gattrs := by
+  induction ops generalizing s with
+  | nil => exact hg
+  | cons op ops ih =>
+    rw [run_cons_fst]
+    have h0 : (s.named? n).isSome = true := hatt 0 (by simp)
+    apply ih
+    · rcases step_gattrs s op with e | ⟨m, _, hm, e⟩
+      · rw [e]; exact hg
+      · rw [e]
+        intro hmem
+        rcases List.mem_cons.mp hmem with rfl | hmem
+        · rw [hm] at h0; simp at h0
+        · exact hg hmem
+    · intro k hk
+      have := hatt (k + 1) (by simp; omega)
+      rwa [List.take_succ_cons, run_cons_fst] at this
+
 /-! ## one layer object on two grids -/
 
 /-- A layer added to a second grid as well (`g2.add_property_layer(layer)`; refused exactly like on the first:
@@ -1264,5 +1325,13 @@ example : (run (init .new [1, 3] 0)
     [.create "a" .int 2, .layerSet 1 [0, 1] 5, .layerSelect 1 (fun x => decide (x > 2)), .aggregate 1 .sum,
      .aggregate 1 .max, .aggregate 1 .min, .newLayer "z" [0, 2] .int 0, .aggregate 2 .sum, .aggregate 2 .max]).2.drop 2 =
     [.sel [[0, 1]] [false, true, false], .val 9, .val 5, .val 2, .id 2, .val 0, .err (.value .empty)] := by decide
+
+/-- the code's own caveat, on a reachable state: an attribute given to the grid *before* the layer exists is not
+    protected — `grid.a` then reads the user's object, while cell attribute and layer still are one value;
+    after the layer exists the assignment is refused -/
+example : (run (init .new [1, 2] 0)
+    [.gridSet "a", .create "a" .int 3, .dumpName "a", .cellGet "a" [0, 1], .create "b" .int 4, .gridSet "b",
+     .dumpName "b", .detach "b", .gridSet "b"]).2 =
+    [.ok, .id 1, .err .shadowed, .val 3, .id 2, .err .attr, .arr [4, 4], .ok, .ok] := by decide
 
 end Mesa.Layers
